@@ -262,6 +262,9 @@ func ttlEpisode(c *Ctx, tc ttlCase) {
 			c.Fail("cachettl:pipe:second-read-value", op, fmt.Sprintf("%s: first %q second %q", o.key, o.val, s.val))
 		}
 		switch {
+		case s.hit && o.pttl == 0: // the reply expired on arrival, 2 ms ago
+			c.Fail("cachettl:pipe:server-pttl-boundary", op, fmt.Sprintf("%s of %s (%s store, client ttl %d ms): a reply that arrived with server PTTL 0 is served as a cache hit (expiry %d) by a read started at %d",
+				tc.path, o.key, store, tc.ttlMs, s.pxat, t2b))
 		case s.hit && !(t2b < o.pxat && s.pxat == o.pxat):
 			key := "cachettl:pipe:hit-after-expiry"
 			if o.pttl == 0 {
